@@ -733,7 +733,7 @@ def run(w) -> None:
     thorough = w.tier == "thorough"
     sigs = list(c05.signatures(3))
     kinds = ["function", "async", "method", "amethod", "static", "class", "pget"]
-    n_total = 6000 if thorough else 700
+    n_total = 25000 if thorough else 2500
     batch = []
     for i in range(n_total):
         if i % w.nshards != w.shard:
